@@ -1,4 +1,9 @@
 import CuqiVerif.Proofs.C08_orbit
+import Mathlib.Algebra.BigOperators.Fin
+import Mathlib.MeasureTheory.Constructions.Pi
+import Mathlib.MeasureTheory.Measure.Lebesgue.Basic
+import Mathlib.Data.ENNReal.BigOperators
+import Mathlib.Data.Rat.Cast.Lemmas
 
 /-!
 # C08 — probabilistic semantics of the draw script: definitions and helper lemmas
@@ -772,11 +777,15 @@ lemma dir_mix (c : Ctx Z) (hinv : StepInverse c) (guard : Z → Bool) (z0 : Z) (
           + (1 - topProb st.n t0.n) * V i)
         = V i + topProb st.n t0.n * wsum t0.leaves t0.wts
             (fun y => if guard y = true then K (nextLoop c st v (t0.setCand y) true []) - V i else 0) := by
-      rw [← wsum_mul_left, ← one_mul (V i), ← S1, ← wsum_const t0.leaves t0.wts (V i) T.wts_len, ← wsum_add]
-      apply wsum_congr
-      intro y _
-      rw [hKg]
-      split <;> ring
+      have h1 : wsum t0.leaves t0.wts (fun y => topProb st.n t0.n * K (nextLoop c st v (t0.setCand y) (guard y) [])
+            + (1 - topProb st.n t0.n) * V i)
+          = wsum t0.leaves t0.wts (fun y => V i + topProb st.n t0.n *
+              (if guard y = true then K (nextLoop c st v (t0.setCand y) true []) - V i else 0)) := by
+        apply wsum_congr
+        intro y _
+        rw [hKg]
+        split <;> ring
+      rw [h1, wsum_add, wsum_const _ _ _ T.wts_len, S1, one_mul, wsum_mul_left]
     rw [e]
     have hmixacc : (orbOf c guard z0).acc st.j lo nlo = topProb st.n t0.n := by
       unfold Orb.acc topProb
@@ -811,12 +820,550 @@ lemma dir_mix (c : Ctx Z) (hinv : StepInverse c) (guard : Z → Bool) (z0 : Z) (
       rw [h0, topProb_zero]
       ring
   · have hf : t0.s = false := by simpa using hts
-    simp only [hts, if_false, hKf]
+    simp only [hf, Bool.false_eq_true, if_false, hKf]
     rw [wsum_const _ _ _ T.wts_len, S1, one_mul]
     unfold Orb.mix Orb.stay Orb.acc
     rw [← G, hf]
     simp
 
+lemma loopInv_congr (c : Ctx Z) (z0 : Z) (st st' : Loop Z) (lo hi : ℤ) (I : LoopInv c z0 st lo hi)
+    (h1 : st'.zminus = st.zminus) (h2 : st'.zplus = st.zplus) (h3 : st'.n = st.n) (h4 : st'.s = st.s)
+    (h5 : st'.j = st.j) : LoopInv c z0 st' lo hi :=
+  ⟨I.lo_le, I.hi_ge, by rw [h1]; exact I.zminus, by rw [h2]; exact I.zplus, by rw [h3]; exact I.count,
+    by rw [h4, h5]; exact I.full⟩
+
+/-- the state produced by `nextLoop` from the tree of the empty script has the same skeleton as
+    `loopBody` run on a one-draw script that picks the same direction -/
+lemma loopBody_fields (c : Ctx Z) (guard : Z → Bool) (st : Loop Z) (b : Bool) (y : Z) (a : Bool) (x : List Rat) :
+    let sts : Loop Z := { st with us := [if b then 0 else 1 / 2] }
+    let st1 := nextLoop c st (if b then 1 else -1)
+      ((buildTree c (if b then 1 else -1) st.j
+        (if (if b then (1 : Int) else -1) = -1 then st.zminus else st.zplus) []).1.setCand y) a x
+    st1.zminus = (loopBody c guard sts).zminus ∧ st1.zplus = (loopBody c guard sts).zplus ∧
+      st1.n = (loopBody c guard sts).n ∧ st1.s = (loopBody c guard sts).s ∧
+      st1.j = (loopBody c guard sts).j ∧ dirBit sts = !b := by
+  cases b
+  · simp [loopBody, nextLoop, popU, Tree.setCand, dirBit]
+  · simp [loopBody, nextLoop, popU, Tree.setCand, dirBit]
+
+lemma nextLoop_inv (c : Ctx Z) (hinv : StepInverse c) (guard : Z → Bool) (z0 : Z) (st : Loop Z) (lo hi : ℤ)
+    (I : LoopInv c z0 st lo hi) (hs : st.s = true) (b : Bool) (y : Z) (a : Bool) (x : List Rat) :
+    let st1 := nextLoop c st (if b then 1 else -1)
+      ((buildTree c (if b then 1 else -1) st.j
+        (if (if b then (1 : Int) else -1) = -1 then st.zminus else st.zplus) []).1.setCand y) a x
+    st1.j = st.j + 1 ∧
+    st1.s = ((orbOf c guard z0).good st.j (if b then lo + 2 ^ st.j else lo - 2 ^ st.j)
+              && (orbOf c guard z0).ut (st.j + 1) (if b then lo else lo - 2 ^ st.j)) ∧
+    (st1.s = true → ∃ hi', LoopInv c z0 st1 (if b then lo else lo - 2 ^ st.j) hi') := by
+  intro st1
+  obtain ⟨f1, f2, f3, f4, f5, f6⟩ := loopBody_fields c guard st b y a x
+  have Is : LoopInv c z0 ({ st with us := [if b then 0 else 1 / 2] } : Loop Z) lo hi :=
+    ⟨I.lo_le, I.hi_ge, I.zminus, I.zplus, I.count, I.full⟩
+  have hS := loopBody_s c hinv guard z0 _ lo hi Is hs (fun _ => 0)
+  obtain ⟨len, _, _, hfull, I'⟩ := loopBody_inv c hinv guard z0 _ lo hi Is hs
+  refine ⟨rfl, ?_, ?_⟩
+  · show st1.s = _
+    rw [f4, hS, f6]
+    cases b <;> simp [Orb.body]
+  · intro h1
+    have hl : len = 2 ^ st.j := hfull (by rw [← f4]; exact h1)
+    rw [f6, hl] at I'
+    have := loopInv_congr c z0 _ st1 _ _ I' f1 f2 f3 f4 f5
+    refine ⟨if b then hi + 2 ^ st.j else hi, ?_⟩
+    cases b
+    · simpa using this
+    · simpa using this
+
+/-- **the randomised loop of the model computes the orbit-level value function** -/
+lemma loopD_val (c : Ctx Z) (hinv : StepInverse c) (guard : Z → Bool) (z0 : Z) (md : ℕ) (h : Z → ℚ)
+    (fuel : ℕ) : ∀ (st : Loop Z) (lo i : ℤ),
+    st.j + fuel = md + 1 → (st.s = true → ∃ hi, LoopInv c z0 st lo hi) → st.cur = pt c z0 i →
+    (loopD c guard md fuel st).E (fun st' => h st'.cur)
+      = (orbOf c guard z0).val (fun k => h (pt c z0 k)) fuel lo st.j st.s i := by
+  induction fuel with
+  | zero =>
+    intro st lo i _ _ hcur
+    simp [loopD, Rnd.E, Orb.val, hcur]
+  | succ fuel ih =>
+    intro st lo i hj hI hcur
+    by_cases hs : st.s = true
+    · obtain ⟨hi, I⟩ := hI hs
+      have hjle : st.j ≤ md := by omega
+      have hdir : ∀ b : Bool,
+          (buildTreeD c (if b then 1 else -1) st.j
+              (if (if b then (1 : Int) else -1) = -1 then st.zminus else st.zplus)).E
+            (fun t => (afterTree c guard st (if b then 1 else -1) t).E
+              (fun st1 => (loopD c guard md fuel st1).E (fun st' => h st'.cur)))
+          = (orbOf c guard z0).mix st.j lo
+              (if (if b then (1 : Int) else -1) = -1 then lo - 2 ^ st.j else lo + 2 ^ st.j)
+              ((orbOf c guard z0).val (fun k => h (pt c z0 k)) fuel (if b then lo else lo - 2 ^ st.j) (st.j + 1)
+                ((orbOf c guard z0).good st.j (if b then lo + 2 ^ st.j else lo - 2 ^ st.j)
+                  && (orbOf c guard z0).ut (st.j + 1) (if b then lo else lo - 2 ^ st.j))) i := by
+        intro b
+        apply dir_mix c hinv guard z0 st lo hi i I hs hcur (if b then 1 else -1) (by cases b <;> simp)
+        intro y a i1 hc1
+        obtain ⟨e1, e2, e3⟩ := nextLoop_inv c hinv guard z0 st lo hi I hs b y a []
+        have := ih _ (if b then lo else lo - 2 ^ st.j) i1 (by rw [e1]; omega) e3 hc1
+        rw [this, e1, e2]
+      simp only [loopD, hs, hjle, decide_true, Bool.and_self, if_true, Rnd.E_bind]
+      unfold loopBodyD
+      simp only [Rnd.E_bind, Rnd.E_draw]
+      have h1 := hdir true
+      have h2 := hdir false
+      simp only [if_true, Bool.false_eq_true, if_false] at h1 h2 ⊢
+      rw [h1, h2]
+      simp only [Orb.val, if_true, if_false, show ((1 : ℤ) = -1) = False by decide]
+      ring
+    · have hf : st.s = false := by simpa using hs
+      simp only [loopD, hf, Bool.false_and, Bool.false_eq_true, if_false, Rnd.E, Orb.val_false, hcur]
+
 end ModelLaw
+
+/-! ### translation covariance of the orbit-level kernel (to start a transition at any index) -/
+section Shift
+open Finset
+
+/-- `o'` is the trajectory `o` re-indexed so that its index `0` is the index `d` of `o` -/
+structure Orb.IsShift (o' o : Orb) (d : ℤ) : Prop where
+  S : ∀ k, o'.S k = o.S (k + d)
+  nd : ∀ k, o'.nd k = o.nd (k + d)
+  ut : ∀ j a, o'.ut j a = o.ut j (a + d)
+  g : ∀ k, o'.g k = o.g (k + d)
+
+variable {o' o : Orb} {d : ℤ}
+
+lemma Orb.IsShift.good (h : o'.IsShift o d) (j : ℕ) : ∀ a, o'.good j a = o.good j (a + d) := by
+  induction j with
+  | zero => intro a; simp only [Orb.good, h.nd]
+  | succ j ih =>
+    intro a
+    simp only [Orb.good, ih, h.ut]
+    rw [show a + 2 ^ j + d = a + d + 2 ^ j by ring]
+
+lemma Orb.IsShift.cnt (h : o'.IsShift o d) (a : ℤ) (n : ℕ) : cnt o'.S a n = cnt o.S (a + d) n := by
+  unfold CuqiVerif.C08.cnt
+  apply Finset.sum_congr rfl
+  intro t _
+  rw [h.S, show a + t + d = a + d + t by ring]
+
+lemma Orb.IsShift.unif (h : o'.IsShift o d) (a : ℤ) (j : ℕ) (k : ℤ) :
+    o'.unif a j k = o.unif (a + d) j (k + d) := by
+  unfold Orb.unif
+  rw [h.cnt, h.S, h.g]
+  have : (a ≤ k ∧ k < a + 2 ^ j ∧ o.S (k + d) = true ∧ o.g (k + d) = true)
+      ↔ (a + d ≤ k + d ∧ k + d < a + d + 2 ^ j ∧ o.S (k + d) = true ∧ o.g (k + d) = true) := by
+    constructor
+    · rintro ⟨h1, h2, h3, h4⟩; exact ⟨by linarith, by linarith, h3, h4⟩
+    · rintro ⟨h1, h2, h3, h4⟩; exact ⟨by linarith, by linarith, h3, h4⟩
+  rw [if_congr this rfl rfl]
+
+lemma Orb.IsShift.acc (h : o'.IsShift o d) (j : ℕ) (aO aN : ℤ) :
+    o'.acc j aO aN = o.acc j (aO + d) (aN + d) := by
+  unfold Orb.acc
+  rw [h.good, h.cnt, h.cnt]
+
+lemma Orb.IsShift.stay (h : o'.IsShift o d) (j : ℕ) (aO aN : ℤ) :
+    o'.stay j aO aN = o.stay j (aO + d) (aN + d) := by
+  unfold Orb.stay
+  rw [h.acc]
+  congr 2
+  apply Finset.sum_congr rfl
+  intro t _
+  rw [h.unif, show aN + t + d = aN + d + t by ring]
+
+lemma Orb.IsShift.walk (h : o'.IsShift o d) (r : ℕ) : ∀ (st' st : OSt), st.lo = st'.lo + d → st.j = st'.j →
+    st.s = st'.s → (∀ k, st'.dist k = st.dist (k + d)) → ∀ k, o'.walk r st' k = o.walk r st (k + d) := by
+  induction r with
+  | zero => intro st' st _ _ _ hd k; exact hd k
+  | succ r ih =>
+    intro st' st hlo hj hs hd k
+    simp only [Orb.walk, hs]
+    split
+    · have hb : ∀ b, o'.walk r (o'.body b st') k = o.walk r (o.body b st) (k + d) := by
+        intro b
+        apply ih
+        · cases b
+          · simp only [Orb.body, hlo, Bool.false_eq_true, if_false]
+          · simp only [Orb.body, hlo, hj, if_true]; ring
+        · simp only [Orb.body, hj]
+        · cases b
+          · simp only [Orb.body, hlo, hj, Bool.false_eq_true, if_false, h.good, h.ut]
+            rw [show st'.lo + 2 ^ st'.j + d = st'.lo + d + 2 ^ st'.j by ring]
+          · simp only [Orb.body, hlo, hj, if_true, h.good, h.ut]
+            rw [show st'.lo - 2 ^ st'.j + d = st'.lo + d - 2 ^ st'.j by ring]
+        · intro x
+          cases b
+          · simp only [Orb.body, hlo, hj, Bool.false_eq_true, if_false, h.stay, h.acc, h.unif, hd]
+            rw [show st'.lo + 2 ^ st'.j + d = st'.lo + d + 2 ^ st'.j by ring]
+          · simp only [Orb.body, hlo, hj, if_true, h.stay, h.acc, h.unif, hd]
+            rw [show st'.lo - 2 ^ st'.j + d = st'.lo + d - 2 ^ st'.j by ring]
+      show 1 / 2 * o'.walk r (o'.body true st') k + 1 / 2 * o'.walk r (o'.body false st') k = _
+      rw [hb true, hb false]
+    · exact hd k
+
+lemma Orb.IsShift.P (h : o'.IsShift o d) (M : ℕ) (i k : ℤ) : o'.P M i k = o.P M (i + d) (k + d) := by
+  unfold Orb.P
+  apply h.walk M (oinit i) (oinit (i + d)) rfl rfl rfl
+  intro x
+  simp only [oinit, add_left_inj]
+
+end Shift
+
+section ShiftModel
+variable {Z : Type}
+
+lemma pt_zero (c : Ctx Z) (z : Z) : pt c z 0 = z := rfl
+
+lemma pt_add (c : Ctx Z) (h : StepInverse c) (z0 : Z) (i k : ℤ) : pt c (pt c z0 i) k = pt c z0 (i + k) := by
+  induction k using Int.induction_on with
+  | zero => rw [pt_zero, add_zero]
+  | succ n ih =>
+    rw [← pt_succ c h, ih, pt_succ c h]; congr 1; ring
+  | pred n ih =>
+    rw [← pt_pred c h, ih, pt_pred c h]; congr 1; ring
+
+lemma orbOf_shift (c : Ctx Z) (h : StepInverse c) (guard : Z → Bool) (z0 : Z) (i0 : ℤ) :
+    (orbOf c guard (pt c z0 i0)).IsShift (orbOf c guard z0) i0 := by
+  constructor
+  · intro k; simp only [orbOf, sliceAt, pt_add c h, add_comm]
+  · intro k; simp only [orbOf, pt_add c h, add_comm]
+  · intro j a; simp only [orbOf, pt_add c h]
+    congr 2 <;> ring
+  · intro k; simp only [orbOf, pt_add c h, add_comm]
+
+end ShiftModel
+
+/-! ### assembling: the law of the final state of `nutsStepD` -/
+section Final
+open Finset
+variable {Z : Type}
+
+lemma nutsStepD_law0 (c : Ctx Z) (hinv : StepInverse c) (guard : Z → Bool) (z0 : Z) (md : ℕ) (h : Z → ℚ)
+    (h0 : inSlice c z0 = true) (W : Finset ℤ)
+    (hW : Finset.Ico (1 - 2 ^ (md + 1)) (2 ^ (md + 1)) ⊆ W) :
+    (nutsStepD c guard md z0).E (fun st => h st.cur)
+      = ∑ k ∈ W, (orbOf c guard z0).P (md + 1) 0 k * h (pt c z0 k) := by
+  unfold nutsStepD
+  rw [loopD_val c hinv guard z0 md h (md + 1) (loopInit z0 []) 0 0 (by simp [loopInit])
+    (fun _ => ⟨0, loopInit_inv c z0 [] h0⟩) rfl]
+  unfold Orb.P
+  have h0W : (0 : ℤ) ∈ W := by
+    apply hW
+    have : (0 : ℤ) < 2 ^ (md + 1) := by positivity
+    simp only [Finset.mem_Ico]; omega
+  rw [Orb.walk_val (orbOf c guard z0) (fun k => h (pt c z0 k)) (md + 1) (oinit 0) W
+    (by simpa [oinit] using hW) (by simp only [oinit]; rw [Finset.sum_ite_eq' W 0]; simp [h0W])]
+  simp only [oinit, ite_mul, one_mul, zero_mul]
+  rw [Finset.sum_ite_eq' W 0, if_pos h0W]
+  rfl
+
+lemma nutsStepD_law_from (c : Ctx Z) (hinv : StepInverse c) (guard : Z → Bool) (z0 : Z) (md : ℕ) (h : Z → ℚ)
+    (i0 : ℤ) (h0 : inSlice c (pt c z0 i0) = true) (W : Finset ℤ)
+    (hW : Finset.Ico (i0 + 1 - 2 ^ (md + 1)) (i0 + 2 ^ (md + 1)) ⊆ W) :
+    (nutsStepD c guard md (pt c z0 i0)).E (fun st => h st.cur)
+      = ∑ k ∈ W, (orbOf c guard z0).P (md + 1) i0 k * h (pt c z0 k) := by
+  have hsh := orbOf_shift c hinv guard z0 i0
+  rw [nutsStepD_law0 c hinv guard (pt c z0 i0) md h h0 (W.image (fun k => k - i0))]
+  · rw [Finset.sum_image (by intro x _ y _ hxy; simpa using hxy)]
+    apply Finset.sum_congr rfl
+    intro k _
+    rw [hsh.P, pt_add c hinv, zero_add, sub_add_cancel, add_sub_cancel]
+  · intro x hx
+    simp only [Finset.mem_Ico] at hx
+    rw [Finset.mem_image]
+    refine ⟨x + i0, hW ?_, by ring⟩
+    simp only [Finset.mem_Ico]; omega
+
+lemma nutsStepD_prob [DecidableEq Z] (c : Ctx Z) (hinv : StepInverse c) (guard : Z → Bool) (z0 : Z) (md : ℕ)
+    (hinj : Function.Injective (pt c z0)) (i k : ℤ) (hi : inSlice c (pt c z0 i) = true) :
+    (nutsStepD c guard md (pt c z0 i)).E (fun st => if st.cur = pt c z0 k then 1 else 0)
+      = (orbOf c guard z0).P (md + 1) i k := by
+  rw [nutsStepD_law_from c hinv guard z0 md (fun z => if z = pt c z0 k then 1 else 0) i hi
+    (insert k (Finset.Ico (i + 1 - 2 ^ (md + 1)) (i + 2 ^ (md + 1)))) (Finset.subset_insert _ _)]
+  simp only [hinj.eq_iff, mul_ite, mul_one, mul_zero]
+  rw [Finset.sum_ite_eq', if_pos (Finset.mem_insert_self _ _)]
+
+end Final
+
+/-! ### the link to Lebesgue measure: paths are boxes of draws, path weights their volumes -/
+section Volume
+open MeasureTheory
+variable {α : Type}
+
+/-- the draw `u` falls on the recorded side `pb.2` of the threshold `pb.1` -/
+def sideOK (pb : ℚ × Bool) (u : ℝ) : Prop := (u < (pb.1 : ℝ)) ↔ pb.2 = true
+
+/-- the script follows the path `π`: its `k`-th draw falls on the recorded side of the `k`-th threshold -/
+def follows : List (ℚ × Bool) → List ℚ → Prop
+  | [], _ => True
+  | pb :: π, us => (decide ((popU us).1 < pb.1) = pb.2) ∧ follows π (popU us).2
+
+lemma trace_eq_iff_follows (d : Rnd α) (us us' : List ℚ) :
+    d.trace us' = d.trace us ↔ follows (d.trace us) us' := by
+  induction d generalizing us us' with
+  | ret a => simp [Rnd.trace, follows]
+  | test p k ih =>
+    simp only [Rnd.trace, follows, List.cons.injEq, Prod.mk.injEq, true_and]
+    constructor
+    · rintro ⟨h1, h2⟩
+      rw [h1] at h2
+      exact ⟨h1, (ih _ _ _).mp h2⟩
+    · rintro ⟨h1, h2⟩
+      refine ⟨h1, ?_⟩
+      rw [h1]
+      exact (ih _ _ _).mpr h2
+
+lemma popU_eq (us : List ℚ) : popU us = (us.getD 0 (1 / 2), us.tail) := by
+  cases us <;> rfl
+
+lemma getD_tail' (us : List ℚ) (k : ℕ) (x : ℚ) : us.tail.getD k x = us.getD (k + 1) x := by
+  cases us <;> simp
+
+lemma follows_iff (π : List (ℚ × Bool)) : ∀ us : List ℚ,
+    follows π us ↔ ∀ k : Fin π.length, sideOK (π.get k) ((us.getD k (1 / 2) : ℚ) : ℝ) := by
+  induction π with
+  | nil => intro us; simp [follows]
+  | cons pb π ih =>
+    intro us
+    simp only [follows, ih, popU_eq, List.length_cons, Fin.forall_fin_succ, getD_tail']
+    apply and_congr
+    · simp only [sideOK, List.get_eq_getElem, Fin.val_zero, List.getElem_cons_zero, Rat.cast_lt]
+      cases pb.2 <;> simp
+    · rfl
+
+/-- the draws in `[0,1)` on the `b`-side of the threshold `p` form an interval of length `branchW (p, b)` -/
+lemma side_set (pb : ℚ × Bool) (h0 : 0 ≤ pb.1) (h1 : pb.1 ≤ 1) :
+    {u : ℝ | 0 ≤ u ∧ u < 1 ∧ sideOK pb u}
+      = Set.Ico (if pb.2 then 0 else (pb.1 : ℝ)) (if pb.2 then (pb.1 : ℝ) else 1) := by
+  have h0' : (0 : ℝ) ≤ pb.1 := by exact_mod_cast h0
+  have h1' : (pb.1 : ℝ) ≤ 1 := by exact_mod_cast h1
+  ext u
+  simp only [Set.mem_ofPred_eq, sideOK, Set.mem_Ico]
+  cases pb.2
+  · simp only [Bool.false_eq_true, iff_false, not_lt, if_false]
+    constructor
+    · rintro ⟨_, h2, h3⟩; exact ⟨h3, h2⟩
+    · rintro ⟨h2, h3⟩; exact ⟨by linarith, h3, h2⟩
+  · simp only [iff_true, if_true]
+    constructor
+    · rintro ⟨h2, _, h3⟩; exact ⟨h2, h3⟩
+    · rintro ⟨h2, h3⟩; exact ⟨h2, by linarith, h3⟩
+
+lemma branchW_eq (pb : ℚ × Bool) :
+    ((Rnd.branchW pb : ℚ) : ℝ) = (if pb.2 then (pb.1 : ℝ) else 1) - (if pb.2 then 0 else (pb.1 : ℝ)) := by
+  unfold Rnd.branchW
+  cases pb.2 <;> simp
+
+lemma branchW_nonneg (pb : ℚ × Bool) (h0 : 0 ≤ pb.1) (h1 : pb.1 ≤ 1) : 0 ≤ Rnd.branchW pb := by
+  unfold Rnd.branchW
+  split
+  · exact h0
+  · linarith
+
+lemma box_volume (π : List (ℚ × Bool)) (hπ : ∀ pb ∈ π, 0 ≤ pb.1 ∧ pb.1 ≤ 1) :
+    volume {x : Fin π.length → ℝ | ∀ k, 0 ≤ x k ∧ x k < 1 ∧ sideOK (π.get k) (x k)}
+      = ENNReal.ofReal (((π.map Rnd.branchW).prod : ℚ) : ℝ) := by
+  have hset : {x : Fin π.length → ℝ | ∀ k, 0 ≤ x k ∧ x k < 1 ∧ sideOK (π.get k) (x k)}
+      = Set.pi Set.univ (fun k : Fin π.length =>
+          Set.Ico (if (π.get k).2 then 0 else ((π.get k).1 : ℝ)) (if (π.get k).2 then ((π.get k).1 : ℝ) else 1)) := by
+    ext x
+    simp only [Set.mem_ofPred_eq, Set.mem_pi, Set.mem_univ, true_imp_iff]
+    apply forall_congr'
+    intro k
+    have hk := hπ (π.get k) (List.get_mem π k)
+    have := side_set (π.get k) hk.1 hk.2
+    rw [Set.ext_iff] at this
+    exact this (x k)
+  rw [hset, Real.volume_pi_Ico]
+  have hprod : (((π.map Rnd.branchW).prod : ℚ) : ℝ)
+      = ∏ k : Fin π.length, ((Rnd.branchW (π.get k) : ℚ) : ℝ) := by
+    have := Fin.prod_univ_fun_getElem π (fun pb => ((Rnd.branchW pb : ℚ) : ℝ))
+    simp only [List.get_eq_getElem]
+    rw [this, Rat.cast_list_prod, List.map_map]
+    rfl
+  rw [hprod, ENNReal.ofReal_prod_of_nonneg]
+  · apply Finset.prod_congr rfl
+    intro k _
+    rw [branchW_eq]
+  · intro k _
+    have hk := hπ (π.get k) (List.get_mem π k)
+    exact_mod_cast branchW_nonneg _ hk.1 hk.2
+
+lemma trace_valid (d : Rnd α) (hv : d.Valid) (us : List ℚ) : ∀ pb ∈ d.trace us, 0 ≤ pb.1 ∧ pb.1 ≤ 1 := by
+  induction d generalizing us with
+  | ret a => intro pb h; simp [Rnd.trace] at h
+  | test p k ih =>
+    obtain ⟨h0, h1, hk⟩ := hv
+    intro pb h
+    simp only [Rnd.trace, List.mem_cons] at h
+    rcases h with rfl | h
+    · exact ⟨h0, h1⟩
+    · exact ih _ (hk _) _ pb h
+
+end Volume
+
+section Misc
+variable {Z : Type}
+
+lemma inSlice_notDiverged (c : Ctx Z) (hd : 0 < c.deltaMax) (z : Z) (h : inSlice c z = true) :
+    notDiverged c z = true := by
+  unfold inSlice at h
+  unfold notDiverged
+  cases hh : c.ham z with
+  | fin q =>
+    rw [hh] at h
+    simp only [XR.geRat, decide_eq_true_eq] at h
+    simp only [XR.gtRatShift, decide_eq_true_eq]
+    linarith
+  | nan => rw [hh] at h; simp [XR.geRat] at h
+  | pinf => rfl
+  | ninf => rw [hh] at h; simp [XR.geRat] at h
+
+end Misc
+
+/-! ### the law is the push-forward of the uniform measure on draw vectors -/
+section Pushforward
+open MeasureTheory
+variable {α : Type}
+
+/-- deterministic interpretation on a vector of `n` real draws (a draw beyond the `n`-th is `1/2`,
+    as `popU` does on an exhausted script) -/
+noncomputable def Rnd.runR : Rnd α → (n : ℕ) → (Fin n → ℝ) → α
+  | .ret a, _, _ => a
+  | .test p k, 0, x => Rnd.runR (k (decide ((1 / 2 : ℝ) < (p : ℝ)))) 0 x
+  | .test p k, n + 1, x => Rnd.runR (k (decide (x 0 < (p : ℝ)))) n (Fin.tail x)
+
+/-- maximal number of draws consumed -/
+def Rnd.depth : Rnd α → ℕ
+  | .ret _ => 0
+  | .test _ k => 1 + max (Rnd.depth (k true)) (Rnd.depth (k false))
+
+/-- the unit cube `[0,1)^n` of draw vectors -/
+def cube (n : ℕ) : Set (Fin n → ℝ) := {x | ∀ i, 0 ≤ x i ∧ x i < 1}
+
+lemma cube_eq (n : ℕ) : cube n = Set.pi Set.univ (fun _ : Fin n => Set.Ico (0 : ℝ) 1) := by
+  ext x; simp [cube, Set.mem_pi]
+
+lemma cube_measurable (n : ℕ) : MeasurableSet (cube n) := by
+  rw [cube_eq]; exact MeasurableSet.univ_pi (fun _ => measurableSet_Ico)
+
+lemma cube_volume (n : ℕ) : volume (cube n) = 1 := by
+  rw [cube_eq, Real.volume_pi_Ico]; simp
+
+lemma e_apply (n : ℕ) (x : Fin (n + 1) → ℝ) :
+    MeasurableEquiv.piFinSuccAbove (fun _ : Fin (n + 1) => ℝ) 0 x = (x 0, Fin.tail x) := by
+  simp [MeasurableEquiv.piFinSuccAbove, Fin.insertNthEquiv]
+
+lemma pr_test (p : ℚ) (k : Bool → Rnd α) (P : α → Prop) [DecidablePred P] :
+    (Rnd.test p k).pr P = p * (k true).pr P + (1 - p) * (k false).pr P := rfl
+
+lemma pr_nonneg (d : Rnd α) (hv : d.Valid) (P : α → Prop) [DecidablePred P] : 0 ≤ d.pr P :=
+  d.E_nonneg hv _ (fun a => by split <;> norm_num)
+
+lemma cell_split (n : ℕ) (p : ℚ) (h0 : 0 ≤ p) (h1 : p ≤ 1) (k : Bool → Rnd α) (P : α → Prop) :
+    {x : Fin (n + 1) → ℝ | x ∈ cube (n + 1) ∧ P ((Rnd.test p k).runR (n + 1) x)}
+      = (MeasurableEquiv.piFinSuccAbove (fun _ : Fin (n + 1) => ℝ) 0) ⁻¹'
+          (Set.Ico 0 (p : ℝ) ×ˢ {y : Fin n → ℝ | y ∈ cube n ∧ P ((k true).runR n y)})
+        ∪ (MeasurableEquiv.piFinSuccAbove (fun _ : Fin (n + 1) => ℝ) 0) ⁻¹'
+          (Set.Ico (p : ℝ) 1 ×ˢ {y : Fin n → ℝ | y ∈ cube n ∧ P ((k false).runR n y)}) := by
+  have h0' : (0 : ℝ) ≤ p := by exact_mod_cast h0
+  have h1' : (p : ℝ) ≤ 1 := by exact_mod_cast h1
+  ext x
+  simp only [Set.mem_ofPred_eq, Set.mem_union, Set.mem_preimage, e_apply, Set.mem_prod, Set.mem_Ico,
+    cube, Fin.forall_fin_succ, Rnd.runR, Fin.tail]
+  by_cases hx : x 0 < (p : ℝ)
+  · rw [decide_eq_true hx]
+    constructor
+    · rintro ⟨⟨⟨a, _⟩, b⟩, c⟩; exact Or.inl ⟨⟨a, hx⟩, b, c⟩
+    · rintro (⟨⟨a, _⟩, b, c⟩ | ⟨⟨a, _⟩, _⟩)
+      · exact ⟨⟨⟨a, by linarith⟩, b⟩, c⟩
+      · linarith
+  · rw [decide_eq_false hx]
+    constructor
+    · rintro ⟨⟨⟨_, a⟩, b⟩, c⟩; exact Or.inr ⟨⟨by linarith, a⟩, b, c⟩
+    · rintro (⟨⟨_, a⟩, _⟩ | ⟨⟨a, a'⟩, b, c⟩)
+      · exact absurd a hx
+      · exact ⟨⟨⟨by linarith, a'⟩, b⟩, c⟩
+
+lemma runR_law (d : Rnd α) (hv : d.Valid) (P : α → Prop) [DecidablePred P] :
+    ∀ n, d.depth ≤ n → MeasurableSet {x : Fin n → ℝ | x ∈ cube n ∧ P (d.runR n x)} ∧
+      volume {x : Fin n → ℝ | x ∈ cube n ∧ P (d.runR n x)} = ENNReal.ofReal ((d.pr P : ℚ) : ℝ) := by
+  induction d with
+  | ret a =>
+    intro n _
+    by_cases hP : P a
+    · have : {x : Fin n → ℝ | x ∈ cube n ∧ P ((Rnd.ret a).runR n x)} = cube n := by
+        ext x; simp [Rnd.runR, hP]
+      rw [this]
+      refine ⟨cube_measurable n, ?_⟩
+      rw [cube_volume]; simp [Rnd.pr, Rnd.E, hP]
+    · have : {x : Fin n → ℝ | x ∈ cube n ∧ P ((Rnd.ret a).runR n x)} = ∅ := by
+        ext x; simp [Rnd.runR, hP]
+      rw [this]
+      refine ⟨MeasurableSet.empty, ?_⟩
+      simp [Rnd.pr, Rnd.E, hP]
+  | test p k ih =>
+    obtain ⟨h0, h1, hk⟩ := hv
+    intro n hn
+    cases n with
+    | zero => simp [Rnd.depth] at hn
+    | succ n =>
+      have hdT : (k true).depth ≤ n := by simp only [Rnd.depth] at hn; omega
+      have hdF : (k false).depth ≤ n := by simp only [Rnd.depth] at hn; omega
+      obtain ⟨mT, vT⟩ := ih true (hk true) n hdT
+      obtain ⟨mF, vF⟩ := ih false (hk false) n hdF
+      rw [cell_split n p h0 h1 k P]
+      set e := MeasurableEquiv.piFinSuccAbove (fun _ : Fin (n + 1) => ℝ) 0
+      have hmp := volume_preserving_piFinSuccAbove (fun _ : Fin (n + 1) => ℝ) 0
+      have m1 : MeasurableSet (e ⁻¹' (Set.Ico 0 (p : ℝ) ×ˢ {y : Fin n → ℝ | y ∈ cube n ∧ P ((k true).runR n y)})) :=
+        e.measurable (measurableSet_Ico.prod mT)
+      have m2 : MeasurableSet (e ⁻¹' (Set.Ico (p : ℝ) 1 ×ˢ {y : Fin n → ℝ | y ∈ cube n ∧ P ((k false).runR n y)})) :=
+        e.measurable (measurableSet_Ico.prod mF)
+      refine ⟨m1.union m2, ?_⟩
+      have hdisj : Disjoint (e ⁻¹' (Set.Ico 0 (p : ℝ) ×ˢ {y : Fin n → ℝ | y ∈ cube n ∧ P ((k true).runR n y)}))
+          (e ⁻¹' (Set.Ico (p : ℝ) 1 ×ˢ {y : Fin n → ℝ | y ∈ cube n ∧ P ((k false).runR n y)})) := by
+        rw [Set.disjoint_left]
+        intro x hx1 hx2
+        simp only [Set.mem_preimage, Set.mem_prod, Set.mem_Ico] at hx1 hx2
+        linarith [hx1.1.2, hx2.1.1]
+      rw [measure_union hdisj m2, hmp.measure_preimage_equiv, hmp.measure_preimage_equiv,
+        Measure.volume_eq_prod, Measure.prod_prod, Measure.prod_prod, Real.volume_Ico, Real.volume_Ico, vT, vF,
+        pr_test]
+      have hT := pr_nonneg (k true) (hk true) P
+      have hF := pr_nonneg (k false) (hk false) P
+      have h0' : (0 : ℝ) ≤ p := by exact_mod_cast h0
+      have h1'' : (p : ℝ) ≤ 1 := by exact_mod_cast h1
+      have h1' : (0 : ℝ) ≤ 1 - p := by linarith
+      have hT' : (0 : ℝ) ≤ ((k true).pr P : ℚ) := by exact_mod_cast hT
+      have hF' : (0 : ℝ) ≤ ((k false).pr P : ℚ) := by exact_mod_cast hF
+      rw [← ENNReal.ofReal_mul (by linarith), ← ENNReal.ofReal_mul h1',
+        ← ENNReal.ofReal_add (by positivity) (by positivity)]
+      congr 1
+      push_cast
+      ring
+
+/-- on rational scripts the real-draw interpretation is the script interpretation `Rnd.run` -/
+lemma run_runR (d : Rnd α) : ∀ us : List ℚ,
+    (d.run us).1 = d.runR us.length (fun i => ((us.get i : ℚ) : ℝ)) := by
+  induction d with
+  | ret a => intro us; cases us <;> rfl
+  | test p k ih =>
+    intro us
+    cases us with
+    | nil =>
+      have hd : decide ((1 / 2 : ℚ) < p) = decide ((1 / 2 : ℝ) < (p : ℝ)) := by
+        rw [decide_eq_decide, ← Rat.cast_lt (K := ℝ)]; push_cast; rfl
+      show ((k (decide ((1 / 2 : ℚ) < p))).run []).1
+        = (k (decide ((1 / 2 : ℝ) < (p : ℝ)))).runR 0 (fun i => (((([] : List ℚ).get i : ℚ)) : ℝ))
+      rw [ih _ [], hd]
+      rfl
+    | cons u rest =>
+      have hd : decide (u < p) = decide ((u : ℝ) < (p : ℝ)) := by
+        rw [decide_eq_decide, Rat.cast_lt]
+      show ((k (decide (u < p))).run rest).1
+        = (k (decide ((u : ℝ) < (p : ℝ)))).runR rest.length (fun i => ((rest.get i : ℚ) : ℝ))
+      rw [ih _ rest, hd]
+
+end Pushforward
 
 end CuqiVerif.C08
